@@ -707,7 +707,13 @@ impl fmt::Display for Pattern {
             Pattern::Tuple(elems) => {
                 let mut builder = String::new();
                 builder.push('(');
-                write!(builder, "{elems}")?;
+                builder.push_str(
+                    &elems
+                        .iter()
+                        .map(|x| x.to_string())
+                        .collect::<Vec<_>>()
+                        .join(", "),
+                );
                 builder.push(')');
                 builder
             }
@@ -746,6 +752,7 @@ impl std::cmp::Ord for Pattern {
 
 impl std::cmp::PartialOrd for Pattern {
     fn partial_cmp(&self, other: &Self) -> Option<Ordering> {
+                // the elements are positional: keep their order and repetitions
         Some(self.cmp(other))
     }
 }
